@@ -134,6 +134,8 @@ def check_bookkeeping(world):
         if len(set(ids_ps)) != len(ids_ps):
             bad.append(f"{nm}: a product space is listed twice")
         for p in cont.states:
+            if getattr(p, "container", cont) is not cont:
+                bad.append(f"{nm}: a product space listed here points back to another container (its index refresh would use that one)")
             if len(p.state_objs) == 0:
                 bad.append(f"{nm}: an empty product space is kept")
             for so in p.state_objs:
